@@ -28,21 +28,30 @@ SHAPES = ["map", "filter", "filter_map", "inspect", "flat_map", "flatten", "unzi
           "send_iter", "send_stream", "demux_map", "demux_map_lazy", "demux_var", "lazy0", "lazy2", "lss0", "lss2",
           "map_flat_map", "flat_map_unzip", "lazy_flat_map", "send_iter_filter", "demux_lazy_sinks"]
 BADSHAPES = ["demux_map_lazy", "lss0", "lss2"]
+# fingerprints name the adaptor type, not the catalogue variant
+KIND_OF = {"lss0": "lazy_sink_source", "lss2": "lazy_sink_source", "lazy0": "lazy", "lazy2": "lazy"}
 
 
-def _cfg(b):
-    return ("SPECIFICATION Spec\nCONSTANTS\n  SHAPES = %s\n  BADSHAPES = %s\n  EMIT = TRUE\n" % (pp._set(SHAPES), pp._set(BADSHAPES))
+def _cfg(b, shapes=None):
+    return ("SPECIFICATION Spec\nCONSTANTS\n  SHAPES = %s\n  BADSHAPES = %s\n  EMIT = TRUE\n" % (pp._set(shapes or SHAPES), pp._set(BADSHAPES))
             + "".join("  %s = %s\n" % kv for kv in b.items())
             + "INVARIANTS InvClean InvDriver InvFacts Progress Emit\nCHECK_DEADLOCK FALSE\n")
 
 
 def _bounds(thorough):
     if thorough:
-        return dict(MaxIn1=3, MaxIn2=2, MaxIn3=2, MaxPend1=2, MaxPend2=2, MaxPend3=1,
-                    RLen1=3, RLen2=2, RLen3=2, XLen1=2, XLen2=1, XLen3=1, CLen1=2, CLen2=1, CLen3=1,
-                    EXTRA="FALSE", FLUSH=2, MaxSrcPolls=2)
+        return dict(MaxIn1=2, MaxIn2=2, MaxIn3=1, MaxPend1=2, MaxPend2=1, MaxPend3=1,
+                    RLen1=3, RLen2=2, RLen3=1, XLen1=1, XLen2=1, XLen3=1, CLen1=1, CLen2=0, CLen3=0,
+                    EXTRA="FALSE", FLUSH=2, MaxSrcPolls=0)
     return dict(MaxIn1=2, MaxIn2=2, MaxIn3=1, MaxPend1=2, MaxPend2=1, MaxPend3=1,
-                RLen1=2, RLen2=2, RLen3=1, XLen1=1, XLen2=1, XLen3=1, CLen1=1, CLen2=1, CLen3=1,
+                RLen1=2, RLen2=2, RLen3=1, XLen1=1, XLen2=1, XLen3=1, CLen1=1, CLen2=0, CLen3=0,
+                EXTRA="FALSE", FLUSH=1, MaxSrcPolls=1)
+
+
+def _bounds_lss():
+    # lazy sink-source: up to two source polls at every pair of points of the sink client's plan
+    return dict(MaxIn1=2, MaxIn2=1, MaxIn3=1, MaxPend1=2, MaxPend2=1, MaxPend3=1,
+                RLen1=2, RLen2=1, RLen3=1, XLen1=1, XLen2=1, XLen3=1, CLen1=1, CLen2=0, CLen3=0,
                 EXTRA="FALSE", FLUSH=1, MaxSrcPolls=2)
 
 
@@ -54,10 +63,15 @@ def _bounds_extra():
 
 def run(tier):
     thorough = tier == "thorough"
-    cfgs = [("mc", _cfg(_bounds(thorough)))] + ([("mc_extra", _cfg(_bounds_extra()))] if thorough else [])
+    if thorough:
+        lss = ["lss0", "lss2"]
+        cfgs = [("mc", _cfg(_bounds(True), [x for x in SHAPES if x not in lss])),
+                ("mc_lss", _cfg(_bounds_lss(), lss)), ("mc_extra", _cfg(_bounds_extra()))]
+    else:
+        cfgs = [("mc", _cfg(_bounds(False)))]
     rnd = [12000, 8, 8] if thorough else [1200, 6, 6]
     res = pp.engine("C14", SD, "SinkPipeImpl", "SinkPipeTrace", "sink_pipe", "sink", SHAPES, BADSHAPES, cfgs, rnd,
-                    "sinkpipe", pp._alter, has_drift=True)
+                    "sinkpipe", pp._alter, has_drift=True, kind_of=KIND_OF)
     res.rule = ("cases = (shape, inputs, poll_ready / poll_flush / poll_close scripts, client plan); non-trivial = "
                 "at least one input and at least one Pending in some script; distinct by that tuple")
     res.assumptions = ["downstream sink doubles are fused (Ready after their script, Ready forever once closed) and never fail",
